@@ -3,6 +3,7 @@
 package omniwitness
 
 import (
+	"errors"
 	"encoding/json"
 	"fmt"
 	"io"
@@ -108,7 +109,7 @@ func canStrace() bool {
 		if err != nil {
 			return
 		}
-		out, err := exec.Command(path, "-f", "-o", "/dev/null", "-e", "trace=fsync,fdatasync,pwrite64", "-e", "inject=fsync,fdatasync:delay_enter=1000", "-e", "inject=pwrite64:delay_enter=1000", "true").CombinedOutput()
+		out, err := exec.Command(path, "-f", "--seccomp-bpf", "-o", "/dev/null", "-e", "trace=fsync,fdatasync,pwrite64", "-e", "inject=fsync,fdatasync:delay_enter=1000", "-e", "inject=pwrite64:delay_enter=1000", "true").CombinedOutput()
 		straceOK = err == nil && len(out) == 0
 	})
 	return straceOK
@@ -139,7 +140,27 @@ func servedText(l *stubLog, wk *vlib.Key, raw []byte) (string, error) {
 	return text, nil
 }
 
+// catchUpError: the only verdict of this part that rests on a deadline.
+type catchUpError struct{ msg string }
+
+func (e catchUpError) Error() string { return e.msg }
+
+// runBin runs the case; a catch-up timeout (the one deadline-based verdict) only counts
+// if it happens again when the whole case is run a second time.
 func runBin(c *BinCase) (bool, []string, error) {
+	nt, classes, err := runBinOnce(c)
+	var cu catchUpError
+	if errors.As(err, &cu) {
+		nt2, classes2, err2 := runBinOnce(c)
+		if err2 == nil {
+			return nt2, append(classes2, "catch-up-timeout-not-reproduced"), nil
+		}
+		return nt2, classes2, err2
+	}
+	return nt, classes, err
+}
+
+func runBinOnce(c *BinCase) (bool, []string, error) {
 	bin := os.Getenv("VERIF_PROG_OMNIBIN")
 	if bin == "" {
 		return false, nil, fmt.Errorf("harness: VERIF_PROG_OMNIBIN not set (the driver builds cmd/omniwitness for this part)")
@@ -185,12 +206,18 @@ func runBin(c *BinCase) (bool, []string, error) {
 			if err != nil {
 				return nil, err
 			}
+			// the poll interval is also the time budget of one feed cycle: generous enough
+			// for a 200 KiB checkpoint on a loaded machine, and for the stretched commits
+			poll := "250ms"
+			if slow {
+				poll = "1s"
+			}
 			args := []string{"-listen", addr, "-metrics_listen", "", "-db_file", filepath.Join(dir, "witness.db"),
-				"-private_key", wk.SKey(), "-poll_interval", "100ms", "-http_timeout", "5s"}
+				"-private_key", wk.SKey(), "-poll_interval", poll, "-http_timeout", "5s"}
 			cmd := exec.Command(bin, args...)
 			if slow {
 				// fsync delayed by SlowSyncMs, every page write (SQLite uses pwrite64) by 1.5ms
-				cmd = exec.Command("strace", append([]string{"-f", "-o", "/dev/null", "-e", "trace=fsync,fdatasync,pwrite64", "-e",
+				cmd = exec.Command("strace", append([]string{"-f", "--seccomp-bpf", "-o", "/dev/null", "-e", "trace=fsync,fdatasync,pwrite64", "-e",
 					fmt.Sprintf("inject=fsync,fdatasync:delay_enter=%d", c.SlowSyncMs*1000), "-e", "inject=pwrite64:delay_enter=1500", bin}, args...)...)
 			}
 			cmd.SysProcAttr = &syscall.SysProcAttr{Setpgid: true} // the kill takes the whole group (strace and the program) at once
@@ -268,7 +295,7 @@ func runBin(c *BinCase) (bool, []string, error) {
 				last = fmt.Sprintf("status %d err %v", code, err)
 			}
 			if time.Now().After(deadline) {
-				return fmt.Errorf("%s: 60s (600 poll intervals) after the log published %.300q the program %s; its output ends:\n%s", what, want, last, tailOf(p.log))
+				return catchUpError{fmt.Sprintf("%s: 60s after the log published %.300q the program %s; its output ends:\n%s", what, want, last, tailOf(p.log))}
 			}
 			time.Sleep(every)
 		}
@@ -428,7 +455,7 @@ func binHash(c *BinCase) string {
 }
 
 func TestC06Binary(t *testing.T) {
-	st := vlib.StatsFor("C06", "binary", "the real cmd/omniwitness program (built from the tree, log configuration from a generated file) on a SQLite file, polling stub sumdb/tiles logs every 100ms, in half of the cases under strace with every fsync delayed by 10-40ms and every page write by 1.5ms (a stretched commit), checkpoints of up to 200 KiB (extension lines); 3-8 growth steps, each optionally with SIGKILL 0-300ms after the program's feeder fetched the newly published checkpoint (i.e. in the middle of that update) or right after the new checkpoint was acknowledged through the HTTP API, then a restart on the same file: every log must serve a complete, fully signed checkpoint that is the one held before or the one being written, nothing acknowledged may be lost, and the program must come back and catch up; non-trivial = at least one kill; distinct by case hash")
+	st := vlib.StatsFor("C06", "binary", "the real cmd/omniwitness program (built from the tree, log configuration from a generated file) on a SQLite file, polling stub sumdb/tiles logs every 250ms (1s when the commit is stretched; the interval is also a feed cycle's time budget), in half of the cases under strace with every fsync delayed by 10-40ms and every page write by 1.5ms (a stretched commit), checkpoints of up to 200 KiB (extension lines); 3-8 growth steps, each optionally with SIGKILL 0-300ms after the program's feeder fetched the newly published checkpoint (i.e. in the middle of that update) or right after the new checkpoint was acknowledged through the HTTP API, then a restart on the same file: every log must serve a complete, fully signed checkpoint that is the one held before or the one being written, nothing acknowledged may be lost, and the program must come back and catch up; non-trivial = at least one kill; distinct by case hash")
 	rapid.Check(t, func(rt *rapid.T) {
 		c := &BinCase{NTiles: rapid.IntRange(1, 2).Draw(rt, "ntiles")}
 		if rapid.Bool().Draw(rt, "slowsync") {
